@@ -631,6 +631,10 @@ func runEval(c Case, l *layout) *hx.Failure {
 	if re.Line != l.lineAt[tp] || re.Pos != l.colAt[tp] {
 		return hx.Failf("runtime-error-position:nl-in-"+nlContext(c.Pieces, l, tp), "source %s: runtime error %q is attached to the token at offset %d = line %d, column %d", clip(l.src), err.Error(), tp, l.lineAt[tp], l.colAt[tp])
 	}
+	// the position a user reads is the one in the error's text: "(Line:<l> Pos:<c>)" at its end
+	if want := fmt.Sprintf("(Line:%d Pos:%d)", l.lineAt[tp], l.colAt[tp]); !strings.HasSuffix(err.Error(), want) {
+		return hx.Failf("runtime-error-position:text", "source %s: the runtime error is attached to the token at offset %d = line %d, column %d (its Line/Pos fields say so too) but its text does not end in %s: %q", clip(l.src), tp, l.lineAt[tp], l.colAt[tp], want, err.Error())
+	}
 	if re.Type != util.ErrNotANumber && re.Type != util.ErrNotABoolean {
 		hx.E.Exclude("unspecified.other-runtime-error")
 		return nil
